@@ -54,6 +54,8 @@ fn limit_shapes(ty: &Ty) -> Vec<(&'static str, Option<LVal>, Option<LVal>)> {
     v.push(("f64-max-range", Some(LVal::F64(f64::MIN)), Some(LVal::F64(f64::MAX))));
     v.push(("f64-tiny", Some(LVal::F64(0.0)), Some(LVal::F64(4e-16))));
     v.push(("f64-tiny-subnormal", Some(LVal::F64(0.0)), Some(LVal::F64(f64::from_bits(8)))));
+    v.push(("f64-one-subnormal-step", Some(LVal::F64(0.0)), Some(LVal::F64(f64::from_bits(1)))));
+    v.push(("f64-three-subnormal-steps", Some(LVal::F64(0.0)), Some(LVal::F64(f64::from_bits(3)))));
     v.push(("f64-adjacent", Some(LVal::F64(tlo)), Some(LVal::F64(f64::from_bits(tlo.to_bits().wrapping_add(if tlo >= 0.0 { 2 } else { 0 }).max(1))))));
     v.push(("f32-unit", Some(LVal::F32(0.0)), Some(LVal::F32(1.0))));
     v.push(("f32-max-range", Some(LVal::F32(f32::MIN)), Some(LVal::F32(f32::MAX))));
@@ -96,7 +98,7 @@ fn stored_values(ty: &Ty, thorough: bool) -> Vec<Val> {
         }
         Ty::F64 { min, max } => {
             let (lo, hi) = (min.unwrap_or(f64::MIN), max.unwrap_or(f64::MAX));
-            let mut v = vec![lo, hi, f64::from_bits(lo.to_bits().wrapping_add(1)), f64::from_bits(hi.to_bits().wrapping_sub(1)), lo * 0.5 + hi * 0.5, 0.0, -0.0, 1.0, -1.0, f64::MIN, f64::MAX, f64::MIN_POSITIVE];
+            let mut v = vec![lo, hi, f64::from_bits(lo.to_bits().wrapping_add(1)), f64::from_bits(hi.to_bits().wrapping_sub(1)), lo * 0.5 + hi * 0.5, 0.0, -0.0, 1.0, -1.0, f64::MIN, f64::MAX, f64::MIN_POSITIVE, f64::from_bits(1), f64::from_bits(2), f64::from_bits(3), f64::from_bits(4)];
             if thorough {
                 v.extend(crate::cat::f64_lattice().into_iter().filter(|x| x.is_finite()));
             } else {
